@@ -9,12 +9,21 @@ from ..tlc import MachineryError
 PID = "C11"
 
 
-def model(chk, kind, variant, mutate, expect_ok, timeout=900):
+FEATS = {
+    "sampler_a": {"circuit", "edit", "param", "input", "source", "backend"},
+    "sampler_b": {"circuit", "input", "shared_source", "shared_detector"},
+    "quick_a": {"circuit", "edit", "param", "input", "pnr"},
+    "quick_b": {"circuit", "input", "ps", "pnr"},
+    "analyzer": {"analyzer_ps"},
+}
+
+
+def model(chk, kind, variant, mutate, expect_ok, timeout=900, feat="sampler_a"):
     """exhaustive TLC run of one mechanism variant; returns the counterexample history (list of calls) if Fresh/AnalysisOwn fails"""
-    name = "%s_%s%s" % (kind, variant, "_mut" if mutate else "")
+    name = "%s_%s_%s%s" % (kind, feat, variant, "_mut" if mutate else "")
     wd = tlc.workdir("C11_" + name)
     tlc.copy_specs(wd, {"LwCache"})
-    consts = dict(Kind=kind, Variant=variant, MutatePS=mutate)
+    consts = dict(Kind=kind, Variant=variant, MutatePS=mutate, Feat=FEATS[feat])
     tlc.write_mc(wd, "MC", "LwCache", consts)
     tlc.write_cfg(wd, "MC", consts, properties=["Fresh", "AnalysisOwn"])
     res = tlc.run(wd, "MC", timeout=timeout)
@@ -30,9 +39,9 @@ def model(chk, kind, variant, mutate, expect_ok, timeout=900):
     return wd, cex
 
 
-def replay(chk, kind, variant, mutate, n, depth):
+def replay(chk, kind, variant, mutate, n, depth, feat):
     from ..adapters import cache as ca
-    wd, _ = model(chk, kind, variant, mutate, True)
+    wd, _ = model(chk, kind, variant, mutate, True, feat=feat)
     simdir = os.path.join(wd, "sim")
     os.makedirs(simdir)
     r2 = tlc.run(wd, "MC", workers=8, timeout=600, simulate="file=%s/tr,num=%d" % (simdir, max(1, n // 8)), depth=depth, seed=chk.seed % (2 ** 31))
@@ -51,7 +60,7 @@ def replay(chk, kind, variant, mutate, n, depth):
                 chk.violation(clause, detail, script={"module": "LwCache", "kind": kind, "calls": r["script"]}, sig=sig)
     chk.traces_validated += cnt
     chk.add_phase("LwCache %s behaviours replayed on a long-lived real object vs freshly created objects" % kind, behaviours=cnt, depth=depth)
-    tlc.cleanup("C11_%s_%s%s" % (kind, variant, "_mut" if mutate else ""))
+    tlc.cleanup("C11_%s_%s_%s%s" % (kind, feat, variant, "_mut" if mutate else ""))
 
 
 def run(tier):
@@ -63,14 +72,16 @@ def run(tier):
                 "between; distinct = distinct histories")
     th = tier == "thorough"
     # model level: the mechanism of the pinned tree is refuted, the repaired mechanism is proved on the complete state graph
-    for kind in ("sampler", "quick", "analyzer"):
-        wd, cex = model(chk, kind, "pinned", False, False)
+    for kind, feat in (("sampler", "sampler_a"), ("quick", "quick_a"), ("analyzer", "analyzer")):
+        wd, cex = model(chk, kind, "pinned", False, False, feat=feat)
         chk.add_phase("model-level counterexample for the pinned %s mechanism" % kind, history=cex)
-        tlc.cleanup("C11_%s_pinned" % kind)
-    n = 4000 if th else 640
-    replay(chk, "sampler", "fixed", False, n, 14)
-    replay(chk, "quick", "fixedps", True, n, 14)
-    replay(chk, "analyzer", "fixed", False, 200 if th else 64, 6)
+        tlc.cleanup("C11_%s_%s_pinned" % (kind, feat))
+    n = 3000 if th else 480
+    replay(chk, "sampler", "fixed", False, n, 14, "sampler_a")
+    replay(chk, "sampler", "fixed", False, n, 14, "sampler_b")
+    replay(chk, "quick", "fixedps", True, n, 14, "quick_a")
+    replay(chk, "quick", "fixedps", True, n, 14, "quick_b")
+    replay(chk, "analyzer", "fixed", False, 200 if th else 64, 8, "analyzer")
     chk.assumptions = ["TLC 1.8", "the world of the replay: two 3-mode lossy circuits that differ only in their herald photon number, one shared Parameter, "
                        "one PostSelection object; 'same distribution' = same keys and values to 1e-12, same seeded samples"]
     return chk.finish()
@@ -84,9 +95,10 @@ def replay_file(path):
     chk = Check(PID, "quick")
     sc = v["script"]
     # rebuild pseudo-states from the call list
-    cfg = {"circ": "A", "inp": 1, "br": 1, "be": 1, "ps": 0, "pnr": 1}
+    cfg = {"circ": "A", "inp": 1, "br": 1, "be": 1, "ps": 0, "pnr": 1, "src": 0, "det": 0}
     states = [{"cfg": dict(cfg), "last": ("init", 0)}]
-    keymap = {"set_circuit": "circ", "set_input": "inp", "set_source": "br", "set_backend": "be", "set_ps": "ps", "set_pnr": "pnr"}
+    keymap = {"set_circuit": "circ", "set_input": "inp", "set_source": "br", "set_backend": "be", "set_ps": "ps", "set_pnr": "pnr",
+              "use_shared_source": "src", "use_shared_detector": "det"}
     for name, arg in sc["calls"]:
         if name in keymap:
             cfg[keymap[name]] = arg
